@@ -187,7 +187,10 @@ def do_op(cm, m, sv, op, st_rows, workdir, variant, shared=None):
 def execute(ctx, case, scope):
     from cryocat import cryomotl as cm
     rng = random.Random(case["seed"])
-    m = cm.Motl(motlutil.vary_index(rows_to_df(case["a"], rng), case["seed"]))
+    adf = motlutil.vary_index(rows_to_df(case["a"], rng), case["seed"])
+    if case["seed"] % 3 == 0:
+        adf = motlutil.int_positions(adf)
+    m = cm.Motl(adf)
     sv = cm.Motl(motlutil.vary_index(rows_to_df(case["b"], rng), case["seed"] // 4))
     shared = {}
     st, _ = project(m.df)
